@@ -287,8 +287,14 @@ int main()
 			g_log=0; g_slog=0;
 			// same through the rule set registered with the convenience overloads
 			if(xss::validate(b,e,rs->plain)!=val || xss::filter(in,rs->plain,xss::remove_invalid,repl)!=rm
-			   || xss::filter(in,rs->plain,xss::escape_invalid,repl)!=es)
+			   || xss::filter(in,rs->plain,xss::escape_invalid,repl)!=es) {
+				// the rule set registered with the convenience overloads runs the library's own regex_functor / uri validators:
+				// its answers are printed so that the oracle can judge them too (PV PRM PES)
 				diff+=" PATHS-DIFFER:plain-api-rules";
+				diff+=std::string(" PV=")+b01(xss::validate(b,e,rs->plain))
+					+" PRM="+hex(xss::filter(in,rs->plain,xss::remove_invalid,repl))
+					+" PES="+hex(xss::filter(in,rs->plain,xss::escape_invalid,repl));
+			}
 			// and through the rule set loaded from JSON
 			if(rs->has_json && (xss::validate(b,e,rs->json)!=val || xss::filter(in,rs->json,xss::remove_invalid,repl)!=rm
 			   || xss::filter(in,rs->json,xss::escape_invalid,repl)!=es))
